@@ -204,6 +204,30 @@ Verdict prop(Tape& t, Run& run) {
 		gi = buildGraph(nif, t, vi);
 		desc = "graph: " + gi.str();
 		version = versions()[vi].name;
+		// Where the root is kept alive by a back pointer (its collision object targets it), a child node may be
+		// stored in front of it: the parentless root still has to come out first. (Decided by the model, no tape read.)
+		{
+			auto& hdr = nif.GetHeader();
+			auto root = nif.GetRootNode();
+			if (root && !root->collisionRef.IsEmpty() && hdr.GetNumBlocks() % 3 == 0 && !nif.GetParentNode(root)) {
+				uint32_t r = nif.GetBlockID(root), cIdx = NIF_NPOS;
+				for (auto& ch : root->childRefs)
+					if (!ch.IsEmpty() && hdr.GetBlock<NiNode>(ch.index) && ch.index > r) {
+						cIdx = ch.index;
+						break;
+					}
+				if (cIdx != NIF_NPOS) {
+					std::vector<uint32_t> perm(hdr.GetNumBlocks());
+					for (uint32_t i = 0; i < perm.size(); i++)
+						perm[i] = i;
+					std::swap(perm[r], perm[cIdx]);
+					hdr.SetBlockOrder(perm);
+					nif.LinkGeomData();
+					desc += " +child-node-stored-before-the-root(root held by its collision object)";
+					run.cls("child-node-before-root");
+				}
+			}
+		}
 	}
 	const uint8_t op = t.u8() % 4;
 	// explicit shape order: permutation / duplicate names / missing names / wrong length
